@@ -276,11 +276,26 @@ theorem importMod_sound (w : World) (st : St) (m : Mod) (hs : StSound (InWorld w
       | some e => simp [he] at hr; subst hr; exact h1
       | none => simp only [he] at hr; exact execMod_sound w st' m h1 r hr
 
+theorem afterNotFound_sound (w : World) (st : St) (m : Mod) (hs : StSound (InWorld w) st) :
+    StSound (InWorld w) (afterNotFound w st m) := by
+  unfold afterNotFound
+  cases m.sub with
+  | none => exact hs
+  | some s =>
+    simp only
+    cases he : execMod w st ⟨m.pkg, none⟩ with
+    | none => exact hs
+    | some r =>
+      obtain ⟨st', e⟩ := r
+      cases e with
+      | some e => exact hs
+      | none => exact execMod_sound w st _ hs _ he
+
 theorem loadPath_sound (w : World) (st : St) (p : PathE) (hs : StSound (InWorld w) st) :
     StSound (InWorld w) (loadPath w st p).1 := by
   unfold loadPath
   cases hi : importMod w st p.mod with
-  | none => exact hs
+  | none => exact afterNotFound_sound w st _ hs
   | some r =>
     have h1 := importMod_sound w st _ hs r hi
     obtain ⟨st', e⟩ := r
@@ -896,7 +911,7 @@ def runImports (w : World) (st : St) : List Mod → St
   | [] => st
   | m :: rest =>
     match importMod w st m with
-    | none => runImports w st rest
+    | none => runImports w (afterNotFound w st m) rest
     | some (st', _) => runImports w st' rest
 
 theorem runImports_sound (w : World) (ms : List Mod) (st : St) (hs : StSound (InWorld w) st) :
@@ -906,7 +921,7 @@ theorem runImports_sound (w : World) (ms : List Mod) (st : St) (hs : StSound (In
   | cons m rest ih =>
     simp only [runImports]
     cases hi : importMod w st m with
-    | none => exact ih st hs
+    | none => exact ih _ (afterNotFound_sound w st m hs)
     | some r =>
       obtain ⟨st', e⟩ := r
       exact ih st' (importMod_sound w st m hs (st', e) hi)
